@@ -13,7 +13,7 @@ from vmon.res import Result, exc_name
 
 ID = "C05"
 LEVEL = "exploration"
-CASES = {"quick": 12000, "thorough": 250000}
+CASES = {"quick": 12000, "thorough": 1250000}
 RULE = ("seeded random pairs of frames (0..40 rows each, id column + 1-3 key columns + 0-3 payload columns of every dtype) "
         "with duplicate and missing keys on both sides, disjoint key sets, empty sides, same-name and (left,right) renamed keys, "
         "int-vs-float keys, name clashes x {left,inner,semi,anti,full}_join; non-trivial = both sides non-empty; distinct = "
